@@ -177,12 +177,21 @@ func genHist(r *rand.Rand, id int, kind int, length int) *Hist {
 		h.Ops = append(h.Ops, Op{Kind: 'J', P: 0})
 		next := 1
 		for i := 0; i < length; i++ {
-			switch r.Intn(7) {
+			switch r.Intn(10) {
 			case 0:
-				h.Ops = append(h.Ops, Op{Kind: 'J', P: next})
-				next++
+				if r.Intn(3) == 0 {
+					h.Ops = append(h.Ops, Op{Kind: 'J', P: r.Intn(next)}) // a return (after A) or a rejoin (after L)
+				} else {
+					h.Ops = append(h.Ops, Op{Kind: 'J', P: next})
+					next++
+				}
 			case 1:
 				h.Ops = append(h.Ops, Op{Kind: 'L', P: r.Intn(next)})
+			case 2:
+				h.Ops = append(h.Ops, Op{Kind: 'A', P: r.Intn(next)})
+			case 3:
+				h.Ops = append(h.Ops, Op{Kind: 'B', P: next})
+				next++
 			default:
 				p := r.Intn(next)
 				if r.Intn(3) == 0 {
